@@ -1,9 +1,11 @@
-"""C17 - window multiplier divisor order.  Ops: wmult (function level)."""
-from .. import gens
+"""C17 - window multiplier divisor order.  Ops: wmult (function level), wire (parse_packet + from_packet with syn_mss), hist (fingerprint_tcp against one-record databases)."""
+import struct
+from .. import gens, wiregen
 
-RULE = ("wmult ops: (window, mss, own ts, ip version, header length, peer mss). Exhaustive window 0..65535 for fixed tuples, "
+RULE = ("API level: wire ops on byte-level SYN / SYN+ACK segments with a peer MSS (incl. peer MSS equal to the own MSS, windows that only the peer divisors divide) and hist ops: "
+        "fingerprint_tcp(syn_mss=..) against one-record databases whose signature is mss*N / mtu*N with wildcard or pinned MSS. wmult ops: (window, mss, own ts, ip version, header length, peer mss). Exhaustive window 0..65535 for fixed tuples, "
         "constructed multiples of each divisor position, random tuples. Non-trivial = the model finds a multiplier (answer is not '-1 0').")
-ASSUMPTIONS = ["function-level op builds TCPPacketSignature directly; the API-level path (fingerprint_tcp with syn_mss) is exercised by C01/C02/C03 checks",
+ASSUMPTIONS = ["the function-level op builds TCPPacketSignature directly; the API-level streams go through parse_packet / from_packet / fingerprint_tcp",
                "'timestamp present' is read as p0f and the code do: the extracted own timestamp is non-zero"]
 NONTRIVIAL_FLOOR = 1000
 
@@ -12,8 +14,50 @@ def op(win, mss, ts, ver, hdr, syn):
     return "\t".join(["wmult", str(win), str(mss), str(ts), str(ver), str(hdr), str(syn)])
 
 
+def seg(r, ver, flags, mss, win, ts):
+    opts = b"\x02\x04" + struct.pack("!H", mss)
+    if ts is not None:
+        opts += b"\x01\x01\x08\x0a" + struct.pack("!II", ts, 0)
+    tcp = wiregen.tcp_header(r, flags=flags, opts=opts, payload=b"", seq=7, ack=0 if flags == 2 else 9, urp=0, win=win, res=0)
+    if ver == 4:
+        return wiregen.ipv4(r, tcp, ipopts=b"", tos=0, ident=1, fl=2, ttl=64)
+    return wiregen.ipv6(r, tcp, tc=0, fl=0, hlim=64)
+
+
+def api_level(ctx):
+    r = ctx.rng
+    wire, hist = [], []
+    hx = lambda s: s.encode().hex()
+    for _ in range(ctx.n(12000, 250000)):
+        ver = r.choice([4, 6])
+        flags = r.choice([0x12, 0x12, 0x02])
+        mss = r.choice([100, 536, 1380, 1400, 1440, 1448, 1460, 99, 1412, r.randrange(100, 1600)])
+        ts = r.choice([None, None, 0, 5])
+        syn = r.choice([0, mss, mss, 1300, 1460, 12, 11, 536, r.randrange(1, 2000)])
+        hdr = (20 if ver == 4 else 40) + 20 + (4 if ts is None else 16)
+        divs = [mss, mss - 12, 1460, 1448, 1440, 1428, mss + 40, mss + hdr, mss + 60, 1500, syn, syn - 12]
+        d = r.choice(divs)
+        k = r.choice([1, 2, 4, 10, 44])
+        win = d * k if 0 < d * k <= 65535 else r.randrange(65536)
+        b = seg(r, ver, flags, mss, win, ts)
+        wire.append(f"wire\t{ver}\t{b.hex()}\t{syn}")
+        form = r.choice(["mss", "mss", "mtu"])
+        pin = r.choice(["*", "*", str(mss)])
+        layout = "mss" if ts is None else "mss,nop,nop,ts"
+        quirks = ("df,id+" if ver == 4 else "") + ("" if flags == 2 or True else "")
+        sig = f"*:64:0:{pin}:{form}*{k},*:{layout}:{quirks}:0"
+        sec = "request" if flags == 2 else "response"
+        db = f"[tcp:{sec}]\nlabel = s:unix:X:\nsig = {sig}\n"
+        hist.append("histq\tL:" + hx(db) + f"\tT:{ver}:{b.hex()}:{syn}:35")
+    ctx.correspond(wire, nontrivial=lambda l, a: "mult=-1," not in a and not a.startswith(("SKIP", "ERR")), label="wire-peer-mss",
+                   tagger=lambda l, a: "no-mult" if "mult=-1," in a else ("mtu" if a.split("mult=")[1].split(" ")[0].endswith(",1") else "mss") if "mult=" in a else a[:12])
+    ctx.correspond(hist, nontrivial=lambda l, a: " exact " in a, label="fptcp-window-forms",
+                   tagger=lambda l, a: (a.split(" ; ")[1].split(" ")[1] if a.count(" ; ") and len(a.split(" ; ")[1].split(" ")) > 2 else a.split(" ; ")[-1][:12]))
+
+
 def run(ctx):
     r = ctx.rng
+    api_level(ctx)
     ops = []
     # constructed: for each divisor position, a multiple of it
     for mss in [100, 536, 1380, 1400, 1440, 1448, 1460, 1500, 9000, 99, 101]:
